@@ -71,31 +71,29 @@ func (b *BoundedIterator) SeekToFirst() {
 // SeekToLast positions at the last key in the bounded range
 func (b *BoundedIterator) SeekToLast() {
 	if b.end != nil {
-		// If we have an end bound, seek to it
-		// The current implementation might not be efficient for finding the last
-		// key before the end bound, but it works for now
-		b.Iterator.Seek(b.end)
-
-		// If we landed exactly at the end bound, back up one
-		if b.Iterator.Valid() && bytes.Equal(b.Iterator.Key(), b.end) {
-			// We need to back up because end is exclusive
-			// This is inefficient but correct
+		// The end bound is exclusive and the underlying iterators cannot step
+		// backwards, so scan the range forward and remember the last key in it.
+		// This is inefficient but correct.
+		if b.start != nil {
+			b.Iterator.Seek(b.start)
+		} else {
 			b.Iterator.SeekToFirst()
+		}
 
-			// Scan to find the last key before the end bound
-			var lastKey []byte
-			for b.Iterator.Valid() && bytes.Compare(b.Iterator.Key(), b.end) < 0 {
-				lastKey = b.Iterator.Key()
-				b.Iterator.Next()
+		var lastKey []byte
+		for b.Iterator.Valid() && bytes.Compare(b.Iterator.Key(), b.end) < 0 {
+			lastKey = append(lastKey[:0], b.Iterator.Key()...)
+			if !b.Iterator.Next() {
+				break
 			}
+		}
 
-			if lastKey != nil {
-				b.Iterator.Seek(lastKey)
-			} else {
-				// No keys before the end bound
-				b.Iterator.SeekToFirst()
-				// This will be marked invalid by checkBounds
-			}
+		if lastKey != nil {
+			b.Iterator.Seek(lastKey)
+		} else {
+			// No keys before the end bound: leave the iterator outside the
+			// bounds, checkBounds marks it invalid
+			b.Iterator.Seek(b.end)
 		}
 	} else {
 		// No end bound, seek to the last key
